@@ -37,7 +37,16 @@ func genC11(x *Ctx) *c11Scen {
 		pairs := tp.Perm(2 * len(c11Subs))
 		tp.Repeat(1, 4, 550, func(k int) {
 			rid++
-			sp.Routes = append(sp.Routes, RouteSpec{ID: rid, Method: []string{"GET", "POST"}[pairs[k]%2], Path: c11Subs[pairs[k]/2]})
+			r := RouteSpec{ID: rid, Method: []string{"GET", "POST"}[pairs[k]%2], Path: c11Subs[pairs[k]/2]}
+			sp.Routes = append(sp.Routes, r)
+			if tp.Chance(150) {
+				// the same method and path again with another representation: legal, and one RemoveRoute
+				// call removes both
+				rid++
+				r.Produces = []string{"application/json"}
+				sp.Routes[len(sp.Routes)-1] = r
+				sp.Routes = append(sp.Routes, RouteSpec{ID: rid, Method: r.Method, Path: r.Path, Produces: []string{"application/xml"}})
+			}
 		})
 		sp.Repath = tp.Chance(150)
 		sc.Svcs = append(sc.Svcs, sp)
@@ -75,7 +84,11 @@ func genC11(x *Ctx) *c11Scen {
 			r := sp.Routes[tp.G(len(sp.Routes))]
 			if present[r.ID] {
 				sc.Ops = append(sc.Ops, AdminOp{Kind: "unroute", Svc: sid, Route: r.ID})
-				present[r.ID] = false
+				for _, o := range sp.Routes {
+					if o.Method == r.Method && o.Path == r.Path {
+						present[o.ID] = false
+					}
+				}
 			} else {
 				sc.Ops = append(sc.Ops, AdminOp{Kind: "route", Svc: sid, Route: r.ID})
 				present[r.ID] = true
@@ -105,6 +118,14 @@ func genC11(x *Ctx) *c11Scen {
 func c11Probes(sc *c11Scen) []Probe {
 	seen := map[string]bool{}
 	var out []Probe
+	withAccept := false // only tables with several representations of one route need Accept variants
+	for _, sp := range sc.Svcs {
+		for _, r := range sp.Routes {
+			if len(r.Produces) > 0 {
+				withAccept = true
+			}
+		}
+	}
 	add := func(m, p string) {
 		if p == "" {
 			p = "/"
@@ -113,6 +134,9 @@ func c11Probes(sc *c11Scen) []Probe {
 		if !seen[k] {
 			seen[k] = true
 			out = append(out, Probe{Method: m, Path: p})
+			if withAccept {
+				out = append(out, Probe{Method: m, Path: p, Accept: "application/xml"})
+			}
 		}
 	}
 	for _, sp := range sc.Svcs {
@@ -147,9 +171,16 @@ func runC11(x *Ctx) {
 	s := x.Sim
 	w := &World{Svcs: sc.Svcs, Router: sc.Router, Filters: sc.Filters, Plains: sc.Plains}
 	w.index()
-	init := RegState{Routes: map[int][]int{}}
+	init := RegState{Routes: map[int][]int{}, Twins: map[int][]int{}}
 	for _, sp := range sc.Svcs {
 		init.Routes[sp.ID] = []int{}
+		for _, a := range sp.Routes {
+			for _, b := range sp.Routes {
+				if a.Method == b.Method && a.Path == b.Path {
+					init.Twins[a.ID] = append(init.Twins[a.ID], b.ID)
+				}
+			}
+		}
 	}
 	w.Start(init)
 	probes := c11Probes(sc)
